@@ -694,5 +694,8 @@ func (m *Machine) reportPanic(g *G, p targetPanic) {
 			}
 		}
 	}
+	if m.lastPanicSite != "" {
+		detail += " at" + m.lastPanicSite
+	}
 	m.violations = append(m.violations, &Violation{Kind: "panic", Label: "panic", Detail: fmt.Sprintf("g%d(%s): %s", g.id, g.name, detail), Choices: append([]int{}, m.forced[:m.pos]...)})
 }
